@@ -153,3 +153,14 @@ Definition good_pos_b (p : Position) : bool :=
       end)
   && implb' (us_ksc p) (ksq <? sq_of (cf0 p) 0)
   && implb' (us_qsc p) ((sq_of (cf1 p) 0 <? ksq) && (ksq <? 8)).
+
+(* ------------------------------------------------------------------ executable form of the invariant kept by every generated legal move
+   (proofs/Closure.v): good_pos_b, one enemy king, the enemy's castling rights backed by rook and king on their home rank
+   with the king on the proper side of the rook, and the side not to move not in check *)
+Definition inv_b (p : Position) : bool :=
+  let tk := lsb (N.land (kings p) (c_them p)) in
+  good_pos_b p
+  && (popcount (N.land (kings p) (c_them p)) =? 1)
+  && implb' (them_ksc p) (holds_b p (sq_of (cf2 p) 7) true ROOK && (56 <=? tk) && (tk <? sq_of (cf2 p) 7))
+  && implb' (them_qsc p) (holds_b p (sq_of (cf3 p) 7) true ROOK && (sq_of (cf3 p) 7 <? tk))
+  && negb (in_check_them p).
